@@ -411,3 +411,13 @@ def c30(ctx):
                 "that membership of 61 probes k*pi/12 in the trigonometric solution sets coincides with f = 0, and "
                 "that linsolve's vector satisfies every equation of a uniquely solvable system")
     simple(ctx, "MC_C30", "Trace_C30", floor=0.3, shards=5)
+
+
+@plan("C22")
+def c22(ctx):
+    ctx.rule = ("TLC enumerates pairs of integer- and expression-coefficient polynomials over 10 variable lists (empty, "
+                "equal, permuted, overlapping, disjoint) with 0-3 monomials (exponents 0-2, zero coefficients included); "
+                "TLC validates from_dict, add, sub, mul, neg, pow, eval, as_symbolic and from_basic (also of an "
+                "unexpanded product) against bag-of-monomials arithmetic over the union of the variables, with the "
+                "structural conditions: variables of the result exactly the union, no zero coefficient stored")
+    simple(ctx, "MC_C22", "Trace_C22", floor=0.5, shards=5)
